@@ -32,6 +32,14 @@ def FLOORS(tier):
         f["fn:" + fn] = 300 if q else 15000
     return f
 
+_FLOORS_BEFORE_ROUND9 = FLOORS
+
+
+def FLOORS(tier):      # noqa: F811 -- floors of the input classes added in round 9 (a quarter of what seed 0 observes in the quick tier)
+    f = _FLOORS_BEFORE_ROUND9(tier)
+    f.update({'named-variable-edited-in-place': 55})
+    return f
+
 
 def exact_case(ctx, rng):
     """coefficients that floats cannot hold (ints above 2**53, thirds, sevenths): bounds compared exactly with Fractions"""
